@@ -144,7 +144,8 @@ class PythonParserGenerator(IndentPrintMixin, NodeWalker):
                 \ndef {name}(self, {self.ctx_stack[0]}: Ctx) -> Any:
             """)
         with self.indent():
-            self.print(self.walk(rule.exp))
+            # NOTE: a based rule parses its base's right-hand side first
+            self.print(self.walk(getattr(rule, 'rhs', None) or rule.exp))
 
     def walk_BasedRule(self, rule: g.BasedRule):
         self.walk_Rule(rule)
